@@ -36,6 +36,7 @@ class Box:
         self.default = None    # defaultdict factory: callable -> value
         self.inner_default = None   # default factory of the containers stored in this one
         self.frozen = False
+        self.cd = None         # concrete-key mode of a dict literal: python dict key -> value (heterogeneous values)
 
     @property
     def e(self):
@@ -179,4 +180,8 @@ def to_z3(v, ty=None):
         return z3.RealVal(repr(v) if isinstance(v, float) else v)
     if ty == TStr and isinstance(v, str):
         return z3.StringVal(v)
+    if ty == TChar and isinstance(v, str) and len(v) == 1:
+        return z3.IntVal(ord(v))
+    if ty == TCStr and isinstance(v, str):
+        return TCStr.lit(v)
     raise EngineError('cannot convert %r to %s' % (v, ty))
